@@ -636,7 +636,7 @@ func TestImage(t *testing.T) {
 	if r.Thorough() {
 		cfg.MaxModules, cfg.MaxFiles, cfg.MaxPackages = 5, 12, 6
 	}
-	r.Check(t, r.Scale(500, 16000), 1, func(t *rapid.T) {
+	r.Check(t, r.Scale(1500, 16000), 1, func(t *rapid.T) {
 		c, _ := genCase(t, cfg)
 		runSuccess(ctx, t, r, c)
 	})
@@ -676,7 +676,7 @@ func TestCLI(t *testing.T) {
 	r := evid.R()
 	ctx := context.Background()
 	cfg := protogen.DefaultConfig()
-	r.Check(t, r.Scale(40, 1600), 2, func(t *rapid.T) {
+	r.Check(t, r.Scale(80, 1600), 2, func(t *rapid.T) {
 		ws := protogen.GenWorkspace(t, cfg)
 		maybeSupplyWKT(t, ws)
 		c := caseFromWorkspace(ws)
@@ -693,7 +693,7 @@ func TestCompileError(t *testing.T) {
 	ctx := context.Background()
 	cfg := protogen.DefaultConfig()
 	cfg.UnusedImports = false
-	r.Check(t, r.Scale(300, 8000), 3, func(t *rapid.T) {
+	r.Check(t, r.Scale(900, 8000), 3, func(t *rapid.T) {
 		ws := protogen.GenWorkspace(t, cfg)
 		rw := ws.Render()
 		c := caseFromWorkspace(ws)
